@@ -27,10 +27,6 @@ BOUNDED_RULE = (
 )
 
 
-class _Lim(G.SigLimiter):
-    pass
-
-
 def _soup_case(ctx, lim, check, name, spec, fmt, tokens, extra_key=None):
     s = G.parse_outcome(G.new_parser(), fmt, tokens, False)
     l = G.parse_outcome(G.new_parser(), fmt, tokens, True)
@@ -39,23 +35,6 @@ def _soup_case(ctx, lim, check, name, spec, fmt, tokens, extra_key=None):
         lim.fail("%s|%s" % (check, sig), "%s  [format %s, tokens %r]" % (what, name, tokens),
                  {"kind": "soup", "fmt": spec, "tokens": tokens})
     return s, l
-
-
-def _derived_alphabet(spec, rng):
-    """adversarial tokens built from the format's own names"""
-    al = ["", "-", "--", "---", "--=", "-=", "-5", "null", "word", "7", "--nope", "--nope=1", "-Z", "true", "abc"]
-    shorts = ""
-    for o in spec["opts"]:
-        lg, sh = o["long"], o["short"]
-        al += ["--" + lg, "--%s=" % lg, "--%s=%s" % (lg, rng.choice(G.opt_values(o["type"], o["nullable"]))), "--%s=abc" % lg]
-        if sh:
-            shorts += sh
-            al += ["-" + sh, "-%s%s" % (sh, rng.choice(["1", "x", "=", "-"])), "--" + sh]
-    if shorts:
-        al += ["-" + shorts, "-" + shorts[::-1], "-" + shorts[0] + "Z" + shorts[1:]]
-    for n, aliases in spec["names"]:
-        al += [n] + list(aliases)
-    return al
 
 
 def bounded(ctx):
@@ -68,7 +47,7 @@ def bounded(ctx):
     L = 3 if quick else 4
     ctx.check("soup", "all token sequences of length 0-%d over the 26-token alphabet (%d sequences) x 6 small formats x "
                       "strict/lenient" % (L, sum(len(AL) ** n for n in range(L + 1))))
-    lim = _Lim(ctx, per=2)
+    lim = G.SigLimiter(ctx, per=2)
     stopped = False
     for name, spec, fmt in formats:
         for n in range(L + 1):
@@ -86,7 +65,7 @@ def bounded(ctx):
     per = 1500 if quick else 40000
     ctx.check("soup_long", "%d seeded token sequences for each length %s over the 26-token alphabet x 6 small formats x "
                            "strict/lenient" % (per, "/".join(str(x) for x in lens if x > L)))
-    lim = _Lim(ctx, per=2)
+    lim = G.SigLimiter(ctx, per=2)
     stopped = False
     for name, spec, fmt in formats:
         for n in lens:
@@ -106,13 +85,13 @@ def bounded(ctx):
                               "from the format's own long/short names (bare, '=', '=value', '=abc', attached, all shorts grouped, "
                               "group with an unknown letter), command names, and the format-independent junk tokens x "
                               "strict/lenient" % (nfmt, nseq))
-    lim = _Lim(ctx, per=2)
+    lim = G.SigLimiter(ctx, per=2)
     stopped = False
     for i in range(nfmt):
         spec = G.random_format(rng)
         fmt = G.build_format(spec)
-        al = _derived_alphabet(spec, rng)
-        name = "r%d" % i
+        al = G.derived_alphabet(spec, rng)
+        name = "r" + G.fid(spec)
         for _ in range(nseq):
             _soup_case(ctx, lim, "soup", name, spec, fmt, [rng.choice(al) for _ in range(rng.randint(1, 6))])
         if ctx.out_of_time():
@@ -128,14 +107,14 @@ def bounded(ctx):
                            "letter inside a flag group; '=value' / '=' on a flag; required or multi option value stripped ('--x=' or "
                            "bare before an option / end); non-convertible value for a typed option or argument) x strict/lenient"
               % (nfmt, nas, nsp))
-    lim = _Lim(ctx, per=2)
+    lim = G.SigLimiter(ctx, per=2)
     counts = {}
     ch = G.RandomChooser(rng)
     stopped = False
     for i in range(nfmt):
         spec = G.random_format(rng)
         fmt = G.build_format(spec)
-        name = "m%d" % i
+        name = "m" + G.fid(spec)
         for _ in range(nas):
             A = G.random_assignment(rng, spec)
             for items, feats in G.some_spellings(spec, A, rng, nsp):
@@ -144,9 +123,11 @@ def bounded(ctx):
                 for kind, variant, mtoks, want in G.mutations(spec, A, items, ch):
                     counts[kind] = counts.get(kind, 0) + 1
                     for sig, what in mutation_problems(spec, A, fmt, mtoks, want):
-                        lim.fail("mutation|%s|%s|%s" % (kind, variant, sig),
-                                 "%s  [valid line %r, mutated %r]" % (what, tokens, mtoks),
-                                 {"kind": "mutation", "fmt": spec, "assign": A, "tokens": mtoks, "want": want, "valid": tokens})
+                        if "%s" in sig:
+                            sig = sig % ("%s|%s" % (kind, variant))
+                        lim.fail("mutation|" + sig, "%s  [%s: valid line %r, mutated %r]" % (what, kind, tokens, mtoks),
+                                 {"kind": "mutation", "fmt": spec, "assign": A, "tokens": mtoks, "want": want, "valid": tokens,
+                                  "fault": "%s|%s" % (kind, variant)})
                     ctx.case([name, mtoks, kind], nontrivial=True)
         if ctx.out_of_time():
             stopped = True
@@ -156,22 +137,27 @@ def bounded(ctx):
 
 
 def mutation_problems(spec, A, fmt, tokens, want):
+    """(signature tail, text) for one faulty line.  An exception outside the documented classes is an `escape|site|mode`
+    whatever the fault was (same defect => same signature); the other classes are specific to the fault."""
     res = []
     s = G.parse_outcome(G.new_parser(), fmt, tokens, False)
     l = G.parse_outcome(G.new_parser(), fmt, tokens, True)
     if s[0] == "ok":
-        res.append(("accepted", "strict parse accepted the faulty line (expected %s)" % want))
+        res.append(("%s|accepted", "strict parse accepted the faulty line (expected %s)" % want))
+    elif s[1] not in G.STRICT_ALLOWED:
+        res.append(("escape|%s|strict" % s[3], "strict parse raised %s: %s (expected %s)" % (s[1], s[2], want)))
     elif s[1] != want:
-        res.append(("raises-%s" % s[3], "strict parse raised %s: %s (expected %s)" % (s[1], s[2], want)))
+        res.append(("%%s|raises-%s" % s[1], "strict parse raised %s: %s (expected %s)" % (s[1], s[2], want)))
     if l[0] == "exc":
         if l[1] in G.PARSE_ERRORS:
-            res.append(("lenient-raises-parse-error", "lenient parse raised %s: %s" % (l[1], l[2])))
+            res.append(("%s|lenient-raises-parse-error", "lenient parse raised %s: %s" % (l[1], l[2])))
         elif l[1] != "ValueError":
-            res.append(("lenient-escape-%s" % l[3], "lenient parse raised %s: %s" % (l[1], l[2])))
+            res.append(("escape|%s|lenient" % l[3], "lenient parse raised %s: %s" % (l[1], l[2])))
         elif want != "ValueError" and not G.undecided_bare(spec, A):
             # (a lenient parse goes on after the fault with what it has; only a bare optional-value option whose default
             # None has no conversion -- args_gen.bare_is_undecided -- may then give the documented ValueError)
-            res.append(("lenient-raises-ValueError", "lenient parse of a line with only a %s fault raised ValueError: %s" % (want, l[2])))
+            res.append(("%s|lenient-raises-ValueError",
+                        "lenient parse of a line with only a %s fault raised ValueError: %s" % (want, l[2])))
     return res
 
 
@@ -180,8 +166,9 @@ def replay_bounded(check_id, failure):
     fmt = G.build_format(w["fmt"])
     sig = failure["signature"]
     if w["kind"] == "mutation":
-        pr = mutation_problems(w["fmt"], w["assign"], fmt, w["tokens"], w["want"])
-        want = sig.rsplit("|", 1)[1]
+        pr = [((p[0] % w["fault"]) if "%s" in p[0] else p[0], p[1])
+              for p in mutation_problems(w["fmt"], w["assign"], fmt, w["tokens"], w["want"])]
+        want = sig.split("|", 1)[1]
     else:
         s = G.parse_outcome(G.new_parser(), fmt, w["tokens"], False)
         l = G.parse_outcome(G.new_parser(), fmt, w["tokens"], True)
